@@ -96,7 +96,8 @@ def get_hed_versions(local_hed_directory=None, library_name=None, check_prerelea
             hed_files += os.listdir(hed_dir)
         except FileNotFoundError:
             pass
-    if not hed_files:
+    if not any(version_pattern.match(hed_file) for hed_file in hed_files):
+        # No schema file yet (bookkeeping files such as the lock or timestamp do not count): populate the cache.
         cache_local_versions(local_hed_directory)
         for hed_dir in local_directories:
             try:
